@@ -119,6 +119,18 @@ def monitor (ws : List String) (impl : List String) : String :=
     match parseRangeTok r, parseRangeTok r2, parseU64 n, parseBool b with
     | some r, some r2, some n, some b => if RangeMon.isNextSpec r r2 n == b then "" else "isnext-wrong"
     | _, _, _, _ => "unparsable"
+  | ["next", r, n], [res] =>
+    match parseRangeTok r, parseU64 n, parseRangeTok res with
+    | some r, some n, some res => if RangeMon.nextSpec r res n then "" else "next-is-not-the-adjacent-range-after"
+    | _, _, _ => "unparsable"
+  | ["previous", r, n], [res] =>
+    match parseRangeTok r, parseU64 n, parseRangeTok res with
+    | some r, some n, some res => if RangeMon.prevSpec r res n then "" else "previous-is-not-the-adjacent-range-before"
+    | _, _, _ => "unparsable"
+  | ["size", r], [v] =>
+    match parseRangeTok r with
+    | some r => if RangeMon.sizeSpec r (if v == "open" then none else v.toNat?) then "" else "size-wrong"
+    | _ => "unparsable"
   | _, _ => ""
 
 end BstreamVerif.Drv.RangeDrv
